@@ -307,6 +307,8 @@ fn case_commands_with(t: &mut Tape, st: &mut Stats, max_lines: usize) -> Verdict
     let n = 1 + t.len(max_lines - 1);
     // top-level boundaries at which the script can be cut into two runs on one context
     let mut cuts: Vec<usize> = vec![];
+    // (function name, 0-based line of its `fn` line)
+    let mut fn_lines: Vec<(String, usize)> = vec![];
     for _ in 0..n {
         cuts.push(script.len());
         match t.weighted(&[30, 1, 1, 1, 1, 1]) {
@@ -377,6 +379,7 @@ fn case_commands_with(t: &mut Tape, st: &mut Stats, max_lines: usize) -> Verdict
             _ => {
                 // a function whose body only calls SDK commands
                 let name = format!("myfn{}", user.len());
+                fn_lines.push((name.clone(), script.matches('\n').count()));
                 script.push_str(&format!("fn {}\n", name));
                 for _ in 0..1 + t.below(2) {
                     let l = gen_line(t, &names, &mut outs, st, &[], true);
@@ -404,6 +407,23 @@ fn case_commands_with(t: &mut Tape, st: &mut Stats, max_lines: usize) -> Verdict
     let r = guarded(|| match cut {
         None => run_text(&script, safe_context(), 200_000, None),
         Some(at) => {
+            // a function of the first part keeps the line numbers of the first script. Called from the second part it
+            // is a jump to that line of the SECOND script: past its end when the definition sat far enough down (the
+            // run just ends), otherwise into unrelated lines, which may well be a loop nobody wrote. Calls of the
+            // second kind are taken out.
+            let n2 = script[at..].lines().count();
+            let risky: Vec<&str> = fn_lines.iter().filter(|(_, l)| script[..at].matches('\n').count() > *l && l + 1 < n2).map(|(n, _)| n.as_str()).collect();
+            let second: String = script[at..]
+                .lines()
+                .map(|l| {
+                    if risky.iter().any(|r| l.split(' ').any(|w| w == *r)) {
+                        "noop".to_string()
+                    } else {
+                        l.to_string()
+                    }
+                })
+                .collect::<Vec<_>>()
+                .join("\n");
             let first = run_text(&script[..at], safe_context(), 200_000, None);
             if first.fuel_exhausted || first.depth_exceeded {
                 return first;
@@ -413,7 +433,7 @@ fn case_commands_with(t: &mut Tape, st: &mut Stats, max_lines: usize) -> Verdict
                 // second part is a jump to an unrelated line, i.e. possibly a loop the generator did not write. The
                 // second run therefore gets little fuel, and running out of it is not a verdict.
                 Ok(ctx) => {
-                    let mut second = run_text(&script[at..], ctx, 2_000, None);
+                    let mut second = run_text(&second, ctx, 2_000, None);
                     if second.fuel_exhausted || second.depth_exceeded {
                         second.fuel_exhausted = false;
                         second.depth_exceeded = false;
